@@ -21,7 +21,7 @@ impl V5 {
 //@   rules: R1
 //@   ensures: out@ == v5_packet_enc(*self)
 //@   forloop 0: it | invariant flows@ == v5_records_enc(self.flowsets@.take(it.index@ as int)), it.index@ <= self.flowsets@.len()
-//@   before "let mut flows = vec![];": proof {
+//@   beforefor 0: proof {
 //@       lemma_v5_header_enc_append(Seq::<u8>::empty(), self.header);
 //@       assert(result@ =~= v5_header_enc(self.header));
 //@   }
